@@ -3,7 +3,7 @@ from contracts import views_cache, views_types, views_nodes, views_static, views
 def build(tier):
     ts = views_cache.targets(tier) + views_types.targets(tier) + views_nodes.targets(tier) + views_static.targets(tier)
     ts += [t for t in views_build.targets(tier) if t.id == "codec.ErrorInfo"]
-    ts += symtab.targets(tier) + symtab.targets_order(tier)
+    ts += symtab.targets(tier) + symtab.targets_order(tier) + symtab.targets_json(tier)
     ts += views_json.targets(tier)  # the JSON half: serialize / deserialize
     ts += fixuplinks.targets(tier)  # the transient CallableType.definition is re-linked on every loading path
     ts += detopts.set_order_targets()  # equal values give equal bytes, also for the writers not under a codec contract
